@@ -14,7 +14,8 @@ taken on the same atom earlier on the same path.
 from . import sym
 from .sym import mk, tag, payload, kids
 
-LOOP_BOUND = 2
+import os as _os
+LOOP_BOUND = int(_os.environ.get("MPCHECK_LOOP_BOUND", "2"))
 MAX_PATHS = 60000
 
 WORKSPACE = {
